@@ -562,6 +562,39 @@ pub fn gen_mecab_inputs(rng: &mut Rng) -> (Vec<u8>, Vec<u8>, Vec<u8>, Vec<u8>, f
     (feature_def, right_id, left_id, model, cf, flags)
 }
 
+/// Observation of one `EXPAND` case (also used by replays).
+pub fn expand_obs(kind: u8, tpl: &str, cate: u32, cells: &[String]) -> String {
+    let (uni, bi): (Vec<String>, Vec<(String, String)>) = match kind {
+        0 => (vec![tpl.to_string()], vec![]),
+        1 => (vec![], vec![(tpl.to_string(), String::new())]),
+        _ => (vec![], vec![(String::new(), tpl.to_string())]),
+    };
+    let calls = vec![(kind, cate, cells.to_vec())];
+    match guarded(|| hooks::extract_session(&uni, &bi, &calls)) {
+        None => "panic".to_string(),
+        Some((res, maps)) => match res[0].first().copied().flatten() {
+            None => "none".to_string(),
+            Some(fid) => {
+                let m = &maps[kind as usize];
+                let s = m.iter().find(|(_, v)| *v == fid).map(|(k, _)| k.clone()).unwrap();
+                format!("some {}", hexs(&s))
+            }
+        },
+    }
+}
+
+/// Observation of one `MECAB` case (also used by replays).
+pub fn mecab_obs(feature_def: &[u8], right_id: &[u8], left_id: &[u8], model: &[u8], cf: f64) -> String {
+    match guarded(|| {
+        let (mut r, mut l, mut c) = (vec![], vec![], vec![]);
+        vibrato::mecab::generate_bigram_info(feature_def, right_id, left_id, model, cf, &mut r, &mut l, &mut c).map(|_| (r, l, c))
+    }) {
+        None => "panic".to_string(),
+        Some(Err(_)) => "err".to_string(),
+        Some(Ok((r, l, c))) => format!("ok {} {} {}", hex(&r), hex(&l), hex(&c)),
+    }
+}
+
 fn mecab_case(rng: &mut Rng, id: &str, fixed: bool, out: &mut dyn Write) {
     let (feature_def, right_id, left_id, model, cf, flags) = gen_mecab_inputs(rng);
     let obs = match guarded(|| {
